@@ -21,6 +21,11 @@ private string canon (mixed e) {
 
 private string oname (mixed ob) { return objectp(ob) ? file_name(ob) : "0"; }
 
+// compile-time errors and warnings as the compiler reports them: ce <file>_line_<n>:_<text>
+void log_error (string file, string msg) {
+  VL("ce " + canon(msg));
+}
+
 // eh caught=<0|1> error=<text> file=<f> line=<l> program=<p> object=<o> trace=<fn>@<prog>@<obj>@<file>@<line>|...
 string error_handler (mapping m, int caught) {
   string s;
@@ -34,5 +39,7 @@ string error_handler (mapping m, int caught) {
     s += (i ? "|" : "") + tr[i]["function"] + "@" + tr[i]["program"] + "@" + oname(tr[i]["object"]) + "@"
        + tr[i]["file"] + "@" + tr[i]["line"];
   VL(s);
+  // errors raised inside the error handler itself (the driver's in_mudlib_error_handler paths)
+  if (stringp(m["error"]) && strsrch(m["error"], "c18_eh_fail") >= 0) error("c18 error inside the error handler");
   return "";
 }
